@@ -208,7 +208,12 @@ class BitStore:
 
     def getslice_withstep_msb0(self, key: slice, /) -> BitStore:
         if self.modified_length is not None:
-            key = slice(*key.indices(self.modified_length))
+            start, stop, step = key.indices(self.modified_length)
+            if len(range(start, stop, step)) == 0:
+                return BitStore()
+            # A negative step running down to the first bit gives a stop of -1, which must not be
+            # reinterpreted as an index from the end.
+            key = slice(start, stop if stop >= 0 else None, step)
         return BitStore(self._bitarray.__getitem__(key))
 
     def getslice_withstep_lsb0(self, key: slice, /) -> BitStore:
